@@ -22,7 +22,25 @@ type Clause struct {
 	Line  int
 }
 
+// GhostVar: a specification-only loop variable ("loop N ghost G u128 := init update expr").
+type GhostVar struct {
+	Name   string
+	Type   string
+	Init   Clause
+	Update Clause
+}
+
+// LoopDef: "loop N define b := expr" — the loop-carried slice b is, at the
+// loop head, *defined* as expr (over ghosts and loop-invariant values); it is
+// also checked like the invariant b == expr.
+type LoopDef struct {
+	Name string
+	Val  Clause
+}
+
 type LoopSpec struct {
+	Defs          []LoopDef
+	Ghosts        []GhostVar
 	Inv           []Clause
 	Unroll        int
 	Bounded       bool
@@ -60,9 +78,11 @@ type Contract struct {
 	SpecName  string   // name under which an assumed pure function can be applied inside specs
 	Split     *SplitSpec
 	Ats       []*AtClause
+	Afters    []AfterClause
 	Assumes   []Clause
 	Small     []SmallHint
 	Returns   []ReturnsClause
+	Witnesses []Witness
 	Sets      []SetsClause
 	retEnsures []int // indices of ensures clauses generated from returns clauses
 }
@@ -85,11 +105,30 @@ type SetsClause struct {
 	When  *Clause
 }
 
+// Witness: "witness n int := expr" — an existentially quantified value of the
+// contract. In the function's own proof it is defined by expr (over parameters
+// and results); at call sites it is a fresh value constrained by the ensures
+// clauses, and definitional "returns" clauses may mention it.
+type Witness struct {
+	Name string
+	Type string
+	Def  Clause
+}
+
 // SmallHint: result (by name r0, r1, ...) takes few values; used to read
 // memory by cases at call sites. A hint only: never affects soundness.
 type SmallHint struct {
 	Result string
 	Lo, Hi int64
+}
+
+// AfterClause: "after call <callee>[#n] bind NAME rK" names a result of that
+// call so that later clauses can speak about it.
+type AfterClause struct {
+	Callee string
+	Nth    int
+	Name   string
+	Result int
 }
 
 // AtClause: an intermediate assertion or rewrite attached to a program point
@@ -151,7 +190,7 @@ type ContractSet struct {
 
 var keywords = map[string]bool{"spec": true, "global": true, "func": true, "assume": true, "props": true, "requires": true,
 	"ensures": true, "modifies": true, "inline": true, "loop": true, "lemma": true, "panics": true, "trusted": true,
-	"nosafety": true, "abstracted": true, "pure": true, "uf": true, "specname": true, "split": true, "at": true, "assumes": true, "small": true, "returns": true, "sets": true, "replay": true, "remainder": true, "sweep": true, "bound": true}
+	"nosafety": true, "abstracted": true, "pure": true, "uf": true, "specname": true, "split": true, "at": true, "after": true, "assumes": true, "small": true, "returns": true, "sets": true, "witness": true, "replay": true, "remainder": true, "sweep": true, "bound": true}
 
 var labelRe = regexp.MustCompile(`^\[([A-Za-z0-9_.\-]+)\]\s*`)
 
@@ -418,6 +457,17 @@ func parseContractFile(path string, cs *ContractSet) error {
 				ec.Label = "sets." + gname
 				cur.Ensures = append(cur.Ensures, ec)
 				cur.retEnsures = append(cur.retEnsures, len(cur.Ensures)-1)
+			case "witness":
+				j := strings.Index(rest, ":=")
+				hd := strings.Fields(strings.TrimSpace(rest[:max0(j)]))
+				if j < 0 || len(hd) != 2 {
+					return fmt.Errorf("%s:%d: witness NAME TYPE := expr", path, l.line)
+				}
+				dc, err := mkClause(strings.TrimSpace(rest[j+2:]), l.line)
+				if err != nil {
+					return err
+				}
+				cur.Witnesses = append(cur.Witnesses, Witness{Name: hd[0], Type: hd[1], Def: dc})
 			case "small":
 				fs := strings.Fields(rest)
 				if len(fs) != 3 {
@@ -464,6 +514,19 @@ func parseContractFile(path string, cs *ContractSet) error {
 				}
 			case "replay":
 				cur.ReplayTpl = rest
+			case "after":
+				// after call <callee>[#n] bind NAME rK
+				fs := strings.Fields(rest)
+				if len(fs) != 5 || fs[0] != "call" || fs[2] != "bind" || !strings.HasPrefix(fs[4], "r") {
+					return fmt.Errorf("%s:%d: after call <callee>[#n] bind NAME rK", path, l.line)
+				}
+				ac := AfterClause{Callee: fs[1], Nth: 1, Name: fs[3]}
+				if i := strings.Index(fs[1], "#"); i >= 0 {
+					ac.Callee = fs[1][:i]
+					ac.Nth, _ = strconv.Atoi(fs[1][i+1:])
+				}
+				ac.Result, _ = strconv.Atoi(fs[4][1:])
+				cur.Afters = append(cur.Afters, ac)
 			case "at":
 				// at call <callee>[#n] assert [label] expr | rewrite name := expr
 				fs := strings.SplitN(rest, " ", 4)
@@ -528,6 +591,43 @@ func parseContractFile(path string, cs *ContractSet) error {
 						c.Label = fmt.Sprintf("inv%d", len(ls.Inv)+1)
 					}
 					ls.Inv = append(ls.Inv, c)
+				case "define":
+					j := strings.Index(arg, ":=")
+					if j < 0 {
+						return fmt.Errorf("%s:%d: loop N define NAME := expr", path, l.line)
+					}
+					nm := strings.TrimSpace(arg[:j])
+					vc, err := mkClause(strings.TrimSpace(arg[j+2:]), l.line)
+					if err != nil {
+						return err
+					}
+					ls.Defs = append(ls.Defs, LoopDef{Name: nm, Val: vc})
+					ic, err := mkClause(nm+" == ("+vc.Text+")", l.line)
+					if err != nil {
+						return err
+					}
+					ic.Label = "def." + nm
+					ls.Inv = append(ls.Inv, ic)
+				case "ghost":
+					// ghost NAME TYPE := init update expr
+					gf := strings.SplitN(arg, " ", 3)
+					if len(gf) < 3 || !strings.HasPrefix(strings.TrimSpace(gf[2]), ":=") {
+						return fmt.Errorf("%s:%d: loop N ghost NAME TYPE := init update expr", path, l.line)
+					}
+					body := strings.TrimSpace(strings.TrimPrefix(strings.TrimSpace(gf[2]), ":="))
+					k := strings.Index(body, " update ")
+					if k < 0 {
+						return fmt.Errorf("%s:%d: ghost variable needs 'update expr'", path, l.line)
+					}
+					ic, err := mkClause(strings.TrimSpace(body[:k]), l.line)
+					if err != nil {
+						return err
+					}
+					uc, err := mkClause(strings.TrimSpace(body[k+8:]), l.line)
+					if err != nil {
+						return err
+					}
+					ls.Ghosts = append(ls.Ghosts, GhostVar{Name: gf[0], Type: gf[1], Init: ic, Update: uc})
 				case "unroll", "bounded":
 					k, err := strconv.Atoi(arg)
 					if err != nil || k <= 0 {
@@ -618,6 +718,13 @@ func parseFuncHeader(rest, pkg string) (string, []ParamDecl, []ParamDecl, error)
 		name = pkg + "." + name
 	}
 	return name, ps, rs, nil
+}
+
+func max0(i int) int {
+	if i < 0 {
+		return 0
+	}
+	return i
 }
 
 func loadContracts(dir, pkgName string) (*ContractSet, error) {
